@@ -136,9 +136,10 @@ def exact_expectation(case):
     # per side: clearly outside (by more than 1e-4 of the bound), or inside / on the bound / beyond it by less than 1e-9 of
     # the bound (far within the documented tolerance of 1e-6); anything between is not judged
     def side(decl, ex, outward):
-        margin = max(abs(ex), 1)
+        # the documented tolerance is relative to the calculated bound (1e-6 of it): for a bound of 0 it is 0
+        margin = abs(ex)
         beyond = (decl - ex) * outward          # > 0: outside the calculated range
-        if beyond >= margin * Fraction(1, 10000):
+        if beyond > 0 and beyond >= margin * Fraction(1, 10000):
             return 'out'
         if beyond <= margin * Fraction(1, 10 ** 9):
             return 'in'
